@@ -60,9 +60,13 @@ impl<T: RefCnt> HybridProtection<T> {
             // possibly destroyed) and fail.
             None
         } else {
-            // It changed in the meantime, but the debt for the previous pointer was already paid
-            // for by someone else, so we are fine using it.
-            Some(unsafe { Self::new(ptr, None) })
+            // It changed in the meantime and the debt was already paid for by someone else. We
+            // can't use the pointer: the payment may come from a writer to a *different* storage
+            // (if the address got reused after the first read of the pointer above), so what we
+            // were paid for might have never been in this storage at all. Give the reference
+            // back and fail.
+            unsafe { T::dec(ptr) };
+            None
         }
     }
 
